@@ -240,6 +240,8 @@ pub struct FakeServer {
     pub peers: Vec<Node>,
     /// record of the requests received
     pub seen: Arc<std::sync::Mutex<Vec<String>>>,
+    /// applied to every answer before it is sent (query kind, answer)
+    pub mangle: Option<Arc<dyn Fn(&str, &mut Answer) + Send + Sync>>,
 }
 
 fn ans<T: Serialize>(id: u64, success: bool, complete: bool, v: &T) -> Answer {
@@ -259,6 +261,7 @@ impl FakeServer {
         tokio::spawn(async move {
             while let Some(q) = q_rx.recv().await {
                 let id = q.id;
+                let kind = query_kind(&q.query);
                 self.seen
                     .lock()
                     .unwrap()
@@ -325,7 +328,10 @@ impl FakeServer {
                         ));
                     }
                 }
-                for a in out {
+                for mut a in out {
+                    if let Some(m) = &self.mangle {
+                        m(kind, &mut a);
+                    }
                     if a_tx.send(a).await.is_err() {
                         return;
                     }
@@ -345,4 +351,117 @@ impl FakeServer {
             history_hash: d.history_hash.clone(),
         })
     }
+}
+
+/// rows a harness controlled serving peer offers for one room
+#[derive(Default)]
+pub struct Batch {
+    pub nodes: Vec<Node>,
+    pub edges: Vec<Edge>,
+    pub node_dels: Vec<NodeDeletionEntry>,
+    pub edge_dels: Vec<EdgeDeletionEntry>,
+}
+
+/// the victim pulls `room` from a FakeServer offering the batch; the daily log announces every row
+pub async fn serve_batch(
+    victim: &Peer,
+    room: Uid,
+    batch: &Batch,
+    rng: &mut rand::rngs::StdRng,
+    mangle: Option<Arc<dyn Fn(&str, &mut Answer) + Send + Sync>>,
+) -> Result<PullStats, String> {
+    use crate::util::day_of;
+    use rand::Rng;
+    let local = victim
+        .db
+        .get_room_definition(room)
+        .await
+        .map_err(|e| e.to_string())?
+        .ok_or("victim does not know the room")?;
+    let mut fs = FakeServer::default();
+    fs.mangle = mangle;
+    let mut days: HashMap<(String, i64), u32> = HashMap::new();
+    let mut max_day = 0;
+    for n in &batch.nodes {
+        let k = (n._entity.clone(), day_of(n.mdate));
+        *days.entry(k.clone()).or_insert(0) += 1;
+        fs.daily_nodes.entry(k).or_default().push(NodeIdentifier {
+            id: n.id,
+            mdate: n.mdate,
+            signature: n._signature.clone(),
+        });
+        fs.nodes.insert(n.id, n.clone());
+        max_day = max_day.max(day_of(n.mdate));
+    }
+    for e in &batch.edges {
+        fs.edges.push(e.clone());
+        if !fs.nodes.contains_key(&e.src) {
+            let k = (e.src_entity.clone(), day_of(e.cdate));
+            *days.entry(k.clone()).or_insert(0) += 1;
+            let mut sig = vec![0u8; 64];
+            rng.fill(&mut sig[..]);
+            fs.daily_nodes.entry(k).or_default().push(NodeIdentifier {
+                id: e.src,
+                mdate: e.cdate.saturating_add(1_000_000_000),
+                signature: sig,
+            });
+            max_day = max_day.max(day_of(e.cdate));
+        }
+    }
+    for d in &batch.node_dels {
+        let k = (d.entity.clone(), day_of(d.deletion_date));
+        *days.entry(k.clone()).or_insert(0) += 1;
+        fs.node_deletions.entry(k).or_default().push(NodeDeletionEntry {
+            room_id: d.room_id,
+            id: d.id,
+            entity: d.entity.clone(),
+            mdate: d.mdate,
+            deletion_date: d.deletion_date,
+            verifying_key: d.verifying_key.clone(),
+            signature: d.signature.clone(),
+            entity_name: None,
+            enable_full_text: false,
+        });
+        max_day = max_day.max(day_of(d.deletion_date));
+    }
+    for d in &batch.edge_dels {
+        let k = (d.src_entity.clone(), day_of(d.deletion_date));
+        *days.entry(k.clone()).or_insert(0) += 1;
+        fs.edge_deletions.entry(k).or_default().push(EdgeDeletionEntry {
+            room_id: d.room_id,
+            src: d.src,
+            src_entity: d.src_entity.clone(),
+            dest: d.dest,
+            label: d.label.clone(),
+            cdate: d.cdate,
+            deletion_date: d.deletion_date,
+            verifying_key: d.verifying_key.clone(),
+            signature: d.signature.clone(),
+            entity_name: None,
+        });
+        max_day = max_day.max(day_of(d.deletion_date));
+    }
+    for ((entity, day), n) in &days {
+        let mut h = vec![0u8; 32];
+        rng.fill(&mut h[..]);
+        fs.room_log.push(DailyLog {
+            room_id: room,
+            date: *day,
+            entity: entity.clone(),
+            entry_number: *n,
+            daily_hash: Some(h),
+            history_hash: None,
+            need_recompute: false,
+        });
+    }
+    fs.room_definition = Some(RoomDefinitionLog {
+        room_id: room,
+        room_def_date: local.room_def_date,
+        last_data_date: Some(max_day),
+        entry_number: Some(1),
+        daily_hash: Some(vec![1; 32]),
+        history_hash: None,
+    });
+    let (q, a) = fs.start();
+    Ok(pull_over(victim, room, q, a, PullOpts::default()).await)
 }
